@@ -7,4 +7,4 @@ import "ddpsim/fwproto"
 const orderBuild = false
 
 func orderBegin(spec *fwproto.OrderSpec) {}
-func orderEnd(call *fwproto.Call)       {}
+func orderEnd(call *fwproto.Call)        {}
